@@ -321,24 +321,31 @@ func (app *App) optimizeReplicaWithSmallestLag(
 	ticker := time.NewTicker(3 * time.Second)
 	defer ticker.Stop()
 
-	app.startSyncerGoroutine(
+	syncerDone := app.startSyncerGoroutine(
 		ctx,
 		ticker,
 		clusterAdapter,
 	)
 
-	return app.optController.Wait(
+	err = app.optController.Wait(
 		ctx,
 		replicaToOptimize,
 	)
+	// the phase is over: stop the syncer and wait for a Sync that may still be in flight,
+	// so that nothing relaxes a replica behind the back of the switchover
+	cancel()
+	<-syncerDone
+	return err
 }
 
 func (app *App) startSyncerGoroutine(
 	ctx context.Context,
 	ticker *time.Ticker,
 	cluster optimization.Cluster,
-) {
+) <-chan struct{} {
+	done := make(chan struct{})
 	go func() {
+		defer close(done)
 		for {
 			select {
 			case <-ctx.Done():
@@ -351,6 +358,7 @@ func (app *App) startSyncerGoroutine(
 			}
 		}
 	}()
+	return done
 }
 
 func (app *App) chooseReplicaToOptimize(
